@@ -130,8 +130,14 @@ def gen_case(streams, tier):
         if "uneven" in fault_kinds and api != "submit" and npos > 1 and n > 1 and f.random() < 0.5:
             j = f.randrange(npos)
             cols[j] = cols[j][: f.randrange(0, n)]
+        # how the callable object comes about: the module-level function itself, or a short-lived object made
+        # for this one call and dropped afterwards (same signature, same results) -- an executor must not
+        # remember anything about a callable beyond the call
+        wrap = w.choice(["module", "module", "partial", "closure"])
+        if wrap == "closure" and (backend in ("cf_procpool", "mp_pool") or fn in ("lambda2", "f2_die")):
+            wrap = "partial"
         op = {"api": api, "via": w.choice(["method", "method", "functor"]), "fn": fn,
-              "kwargs": dict(kwargs)}
+              "kwargs": dict(kwargs), "wrap": wrap}
         if api == "submit":
             op["args"] = [c[0] for c in cols]
         elif api == "map":
@@ -207,9 +213,31 @@ def make_executor(case):
     return be.get_supported_backends()[name](**kw)
 
 
+def _temporary(fn, how):
+    """A fresh callable object with fn's signature and behaviour."""
+    import inspect
+
+    if how == "partial":
+        return partial(fn)
+    if how == "closure":
+        params = list(inspect.signature(fn).parameters.values())
+        if any(p_.kind not in (p_.POSITIONAL_OR_KEYWORD, p_.KEYWORD_ONLY) for p_ in params):
+            return partial(fn)
+        pos = [p_ for p_ in params if p_.kind == p_.POSITIONAL_OR_KEYWORD]
+        kwo = [p_ for p_ in params if p_.kind == p_.KEYWORD_ONLY]
+        ns = {"_fn": fn, "_d": {p_.name: p_.default for p_ in params if p_.default is not p_.empty}}
+        sig = ", ".join(p_.name + (f"=_d['{p_.name}']" if p_.default is not p_.empty else "") for p_ in pos)
+        if kwo:
+            sig += ", *, " + ", ".join(p_.name + (f"=_d['{p_.name}']" if p_.default is not p_.empty else "") for p_ in kwo)
+        callargs = ", ".join([p_.name for p_ in pos] + [f"{p_.name}={p_.name}" for p_ in kwo])
+        exec(f"def _tmp({sig}):\n    return _fn({callargs})\n", ns)  # noqa: S102 - fixed template
+        return ns["_tmp"]
+    return fn
+
+
 def call(ex, op):
     fnlib = _ENV["fnlib"]
-    fn = fnlib.FNS[op["fn"]]
+    fn = _temporary(fnlib.FNS[op["fn"]], op.get("wrap", "module"))
     api, kwargs = op["api"], op["kwargs"]
     if api == "submit":
         args = tuple(op["args"])
@@ -249,6 +277,8 @@ def run_case(case):
                 continue
             counters["ops"] += 1
             counters["api:" + op["api"]] = counters.get("api:" + op["api"], 0) + 1
+            if op.get("wrap", "module") != "module":
+                counters["temporary_callables"] = counters.get("temporary_callables", 0) + 1
             exp_kind, exp = reference(op)
             fn = fnlib.FNS[op["fn"]]
             nparams = len(inspect.signature(fn).parameters)
